@@ -56,6 +56,12 @@ CHECKS = {
  "C18": ("exploration", "generated file-system layouts with ground truth (which local file/root/class each remote frame corresponds to) vs the fields ScanSnapshot fills with GuessPaths, decoy frames included",
          "Layouts are created on disk under .work, a dump referencing them through renamed remote roots is parsed with GuessPaths, and every frame's LocalSrcPath/RelSrcPath/ImportPath/Location plus the detected roots are compared with the generator's table.",
          "Relative paths unique across roots by construction; priority questions (nested modules) are exercised in C06.", "4/C18"),
+ "C19": ("exploration", "generated Go programs compiled and crashed with the installed toolchain(s); the real traceback's typed argument rendering compared position by position with the literals the program passed; mismatching source trees as fault cases",
+         "Programs are generated (chains of functions/methods with random parameter lists over the supported kinds and boundary literals), compiled with -gcflags '-N -l', crashed, and their real traceback is parsed with source analysis; each rendered argument must equal what the program passed, everything else must equal the parse without source analysis; deleted/truncated/shifted/re-arity'd/broken sources must neither crash nor change a frame.",
+         "Trusts the toolchains' traceback encoding; values beyond the runtime's 10-word limit are 'not shown'.", "4/C19"),
+ "C20": ("exploration", "live-runtime monitor: the process's own runtime.Stack(all) dump vs an independent header count and a registry built from runtime.Callers; concurrent httptest clients against the handler under goroutine churn and the race detector, per-request dump correlation through the webstack hook",
+         "Churn rounds at GOMAXPROCS 1/4/16 parse the live dump and compare known goroutines' states, frames and creators with the registry; concurrent clients issue valid and invalid requests; every 200 page must account for all goroutines of the dump that request captured and pass the HTML tokenizer rules; invalid requests 4xx; -race with a canary. Held on the schedules that occurred.",
+         "States compared only after the settle loop; race detection is per execution.", "4/C20"),
  "C01": ("exploration", "generated dumps vs abstract ground truth (field-by-field oracle) + live-runtime registry vs runtime.Callers",
          "Every dump printed by a model of the runtime's traceback printer (all 864 format-variant combinations, all symbol/file/argument shapes, lines > 16 KiB) is parsed by the real ScanSnapshot and compared field by field with the abstract dump it was printed from; live rounds compare the running process's own dump with a registry built from runtime.Callers. Held-on-what-was-explored; the input space is unbounded.",
          "Trusts the generator's reading of runtime/traceback.go and of the linker's PathToPrefix escaping; 64-bit host.", "4/C01"),
